@@ -1,6 +1,7 @@
 package main
 
 import (
+	"os"
 	"fmt"
 	"go/token"
 	"go/types"
@@ -1189,7 +1190,7 @@ func (ex *Exec) freshOnlyComps(fr *frame, final *State) map[string]bool {
 // triggers: a read of the new component at r, or a known aliveness fact about r.
 func frameFact(r *Term, guard []*Term, aliveSel, nv, old *Term) *Term {
 	body := Implies(And(guard...), Eq(Select(nv, r), Select(old, r)))
-	if NoPatterns {
+	if NoPatterns || os.Getenv("GOVC_OLDFRAME") != "" {
 		return Forall([]*Term{r}, body)
 	}
 	return &Term{Op: "forall", Bound: []*Term{r}, Args: []*Term{body}, Sort: SBool, Pats: [][]*Term{{Select(nv, r)}, {aliveSel}}}
